@@ -44,6 +44,7 @@ pub fn run_stroke_geo(l: &[i128]) -> Vec<i128> {
         bound = bound.max(r * ml.max(1.0));
     }
     let (mut npts, mut far, mut worst) = (0i128, 0i128, 0.0f64);
+    let mut far_d: Vec<f64> = Vec::new();
     let mut first = [0i128; 3];
     for c in &outline {
         for k in 0..c.len() {
@@ -57,6 +58,7 @@ pub fn run_stroke_geo(l: &[i128]) -> Vec<i128> {
                     if d - bound > worst {
                         worst = d - bound;
                     }
+                    far_d.push(d - bound);
                     if first[2] == 0 {
                         first = [(x * 1000.0) as i128, (y * 1000.0) as i128, 2];
                     }
@@ -68,6 +70,42 @@ pub fn run_stroke_geo(l: &[i128]) -> Vec<i128> {
     let (mut must, mut uncovered) = (0i128, 0i128);
     let covered = |x: f64, y: f64| oracle::winding(&outline, oracle::scaled(x), oracle::scaled(y)) != 0;
     let mut lines: Vec<(f64, f64, f64, f64)> = Vec::new();
+    // per contour: (closed, segments as control polygons) for the cap / join probes below
+    let mut contours_cp: Vec<(bool, Vec<Vec<(f64, f64)>>)> = Vec::new();
+    {
+        use tiny_skia_path::PathSegment;
+        let pt = |p: tiny_skia::Point| (p.x as f64, p.y as f64);
+        let (mut last, mut start) = ((0.0f64, 0.0f64), (0.0f64, 0.0f64));
+        for seg in path.segments() {
+            match seg {
+                PathSegment::MoveTo(p) => {
+                    last = pt(p);
+                    start = last;
+                    contours_cp.push((false, Vec::new()));
+                }
+                PathSegment::LineTo(p) => {
+                    contours_cp.last_mut().unwrap().1.push(vec![last, pt(p)]);
+                    last = pt(p);
+                }
+                PathSegment::QuadTo(a, p) => {
+                    contours_cp.last_mut().unwrap().1.push(vec![last, pt(a), pt(p)]);
+                    last = pt(p);
+                }
+                PathSegment::CubicTo(a, b, p) => {
+                    contours_cp.last_mut().unwrap().1.push(vec![last, pt(a), pt(b), pt(p)]);
+                    last = pt(p);
+                }
+                PathSegment::Close => {
+                    let c = contours_cp.last_mut().unwrap();
+                    if last != start {
+                        c.1.push(vec![last, start]);
+                    }
+                    c.0 = true;
+                    last = start;
+                }
+            }
+        }
+    }
     {
         use tiny_skia_path::PathSegment;
         let (mut last, mut start) = ((0.0f64, 0.0f64), (0.0f64, 0.0f64));
@@ -94,19 +132,63 @@ pub fn run_stroke_geo(l: &[i128]) -> Vec<i128> {
     // which may cancel the winding of neighbouring pieces; such paths are not judged for coverage
     let mut tight = false;
     if crate::c02::has_curves(&path) {
-        for c in &src {
-            for k in 1..c.len().saturating_sub(1) {
-                let (ux, uy) = (c[k].fx - c[k - 1].fx, c[k].fy - c[k - 1].fy);
-                let (vx, vy) = (c[k + 1].fx - c[k].fx, c[k + 1].fy - c[k].fy);
-                let (lu, lv) = ((ux * ux + uy * uy).sqrt(), (vx * vx + vy * vy).sqrt());
-                if lu < 1e-9 || lv < 1e-9 || lu > 1.0 && lv > 1.0 && (lu > 4.0 || lv > 4.0) {
-                    continue; // a corner between straight pieces, not a curve sample
+        // curvature radius at the two ends of every curve segment (control-polygon formula): a tiny but non-zero control
+        // leg is a near-cusp that sampling does not see
+        for (_, segs) in &contours_cp {
+            for cp in segs {
+                let n = cp.len();
+                if n < 3 {
+                    continue;
                 }
-                let turn = (ux * vy - uy * vx).atan2(ux * vx + uy * vy).abs();
-                if turn * w > 0.5 * (lu + lv) * 0.5 {
+                let k = if n == 3 { 0.5 } else { 2.0 / 3.0 };
+                for (a, b, c) in [(cp[0], cp[1], cp[2]), (cp[n - 1], cp[n - 2], cp[n - 3])] {
+                    let (ux, uy) = (b.0 - a.0, b.1 - a.1);
+                    let (vx, vy) = (c.0 - b.0, c.1 - b.1);
+                    let l = (ux * ux + uy * uy).sqrt();
+                    if l > 0.0 && k * (ux * vy - uy * vx).abs() * w > l * l * l {
+                        tight = true;
+                    }
+                }
+            }
+        }
+        for c in &src {
+            // turning accumulated over any stretch of the flattened contour of arc length w/2
+            let n = c.len();
+            let seg = |k: usize| (c[k + 1].fx - c[k].fx, c[k + 1].fy - c[k].fy);
+            for k in 0..n.saturating_sub(2) {
+                let (mut len, mut turn_sum) = (0.0f64, 0.0f64);
+                let mut j = k;
+                let mut prev: Option<(f64, f64)> = None;
+                while j + 1 < n && len <= 0.5 * w {
+                    let (vx, vy) = seg(j);
+                    let lv = (vx * vx + vy * vy).sqrt();
+                    if lv > 1e-9 {
+                        if let Some((ux, uy)) = prev {
+                            // corners between long straight pieces are joins, not curve samples
+                            let lu = (ux * ux + uy * uy).sqrt();
+                            if !(lu > 1.0 && lv > 1.0 && (lu > 4.0 || lv > 4.0)) {
+                                turn_sum += (ux * vy - uy * vx).atan2(ux * vx + uy * vy).abs();
+                            }
+                        }
+                        prev = Some((vx, vy));
+                    }
+                    len += lv;
+                    j += 1;
+                }
+                if turn_sum > 0.3 {
                     tight = true;
                 }
             }
+        }
+    }
+    // outside the curvature side-condition the property does not quantify over the path; the distance bound is kept as a
+    // net for run-away geometry only, with the slack of one quad spanning a sharp tangent swing (about 10 % of r)
+    if tight && far > 0 {
+        let slack = tol + 0.12 * r;
+        far = far_d.iter().filter(|e| **e > slack).count() as i128;
+        if far == 0 {
+            worst = 0.0;
+            first = [0, 0, 0];
         }
     }
     if r - tol > 0.0 && !tight {
@@ -128,6 +210,82 @@ pub fn run_stroke_geo(l: &[i128]) -> Vec<i128> {
                         if first[2] == 0 {
                             first = [(x * 1000.0) as i128, (y * 1000.0) as i128, 1];
                         }
+                    }
+                }
+            }
+        }
+    }
+    // ---- caps and round joins: the end tangent of a segment is its first non-zero derivative (P3-P2, else P3-P1, else P3-P0)
+    let tangent = |cp: &Vec<(f64, f64)>, at_end: bool| -> Option<(f64, f64)> {
+        let n = cp.len();
+        let order: Vec<(usize, usize)> = if at_end { (0..n - 1).rev().map(|i| (i, n - 1)).collect() } else { (1..n).map(|i| (0, i)).collect() };
+        for (a, b) in order {
+            let (dx, dy) = (cp[b].0 - cp[a].0, cp[b].1 - cp[a].1);
+            let l = (dx * dx + dy * dy).sqrt();
+            if l > 1e-4 {
+                return Some((dx / l, dy / l));
+            }
+        }
+        None
+    };
+    let chord = |cp: &Vec<(f64, f64)>| ((cp[cp.len() - 1].0 - cp[0].0).powi(2) + (cp[cp.len() - 1].1 - cp[0].1).powi(2)).sqrt();
+    let rr = (r - tol) * 0.97;
+    if rr > 0.0 && !tight {
+        let mut probe = |x: f64, y: f64, what: i128| {
+            must += 1;
+            if !covered(x, y) {
+                uncovered += 1;
+                if first[2] == 0 {
+                    first = [(x * 1000.0) as i128, (y * 1000.0) as i128, what];
+                }
+            }
+        };
+        for (closed, segs) in &contours_cp {
+            // segments of exactly zero length are skipped by the stroker (the neighbour gives the direction); a segment
+            // that is merely short decides the direction of a cap or join by itself: such ends are not probed (chord test)
+            let segs: Vec<&Vec<(f64, f64)>> = segs.iter().filter(|cp| cp.iter().any(|q| *q != cp[0])).collect();
+            if segs.is_empty() {
+                continue;
+            }
+            // caps of an open contour (the adjacent segment must be long enough to cover the inner half)
+            if !*closed && cap_i != 0 {
+                for (cp, at_end) in [(segs[0], false), (segs[segs.len() - 1], true)] {
+                    if chord(cp) < 1.2 * r {
+                        continue;
+                    }
+                    let (ux, uy) = match tangent(cp, at_end) {
+                        Some(v) => v,
+                        None => continue,
+                    };
+                    let (ux, uy) = if at_end { (ux, uy) } else { (-ux, -uy) };   // pointing out of the path
+                    let e = if at_end { cp[cp.len() - 1] } else { cp[0] };
+                    if cap_i == 1 {
+                        for k in 0..9 {
+                            let a = -std::f64::consts::FRAC_PI_2 + std::f64::consts::PI * k as f64 / 8.0;
+                            let (c, s_) = (a.cos(), a.sin());
+                            probe(e.0 + rr * (c * ux - s_ * uy), e.1 + rr * (c * uy + s_ * ux), 4);
+                        }
+                    } else {
+                        for t in [0.5, 0.97] {
+                            for s_ in [-0.97, -0.5, 0.0, 0.5, 0.97] {
+                                probe(e.0 + rr * (t * ux - s_ * uy), e.1 + rr * (t * uy + s_ * ux), 5);
+                            }
+                        }
+                    }
+                }
+            }
+            // round joins: the outer wedge between the two normals
+            if join_i == 2 {
+                let n = segs.len();
+                let pairs: Vec<(usize, usize)> = (0..n - 1).map(|i| (i, i + 1)).chain(if *closed && n > 1 { vec![(n - 1, 0)] } else { vec![] }).collect();
+                for (i, j) in pairs {
+                    if chord(segs[i]) < 1.2 * r || chord(segs[j]) < 1.2 * r {
+                        continue;
+                    }
+                    let v = segs[j][0];
+                    for k in 0..12 {
+                        let a = 2.0 * std::f64::consts::PI * k as f64 / 12.0;
+                        probe(v.0 + rr * a.cos(), v.1 + rr * a.sin(), 6);
                     }
                 }
             }
